@@ -115,7 +115,7 @@ def run(ctx):
                     script.append(('raw', I['pl_cb'], body))
                 elif r < 0.8 and unknown_ids:
                     pid = rng.choice(unknown_ids)
-                    data = bytes(rng.randrange(256) for _ in range(rng.choice([0, 1, 5, 300])))
+                    data = bytes(rng.randrange(256) for _ in range(rng.choice([0, 1, 5, 300, 64 - len(rc.varint(pid))])))
                     evs.append('un:%d:%s' % (pid, data.hex() or '-'))
                     script.append(('raw', pid, data))
                 elif chat_ok:
